@@ -831,7 +831,12 @@ static int st_apply_inner(uint32_t op, int audit)
         vrt_state(Mn[t] == 0 ? "empty" : "nonempty");
         VRT_OP1(is_rb ? "rbtree.clear" : "bintree.clear", "t%ld", t);
         clear_tree = t; clear_seen = 0;
-        if (is_rb) cstl_rbtree_clear(RT[t], clear_cb, &clear_seen); else cstl_bintree_clear(BT[t], clear_cb, &clear_seen);
+        if (vrt_case_tick() & 1) {
+            if (is_rb) cstl_rbtree_clear(RT[t], clear_cb, &clear_seen); else cstl_bintree_clear(BT[t], clear_cb, &clear_seen);
+        } else {
+            /* every second clear runs while the allocator refuses everything: clear has no way to fail */
+            VRT_NOMEM(if (is_rb) cstl_rbtree_clear(RT[t], clear_cb, &clear_seen); else cstl_bintree_clear(BT[t], clear_cb, &clear_seen));
+        }
         VRT_CHECK(clear_seen == Mn[t], TK("clear.count"), "clear handed over %d of %d elements", clear_seen, Mn[t]);
         Mn[t] = 0;
         VRT_CHECK(t_size(t) == 0, TK("clear.size"), "size %zu after clear", t_size(t));
@@ -1237,13 +1242,15 @@ next:
 static void run_deep(uint64_t di)
 {
     vrt_rng g;
-    const int desc = (int)(di & 1), dup = (int)((di >> 1) & 1);
+    /* comb: EVERY spine node additionally gets a child on the other side, so a path of more than a thousand nodes with two
+     * children each exists (what a traversal or clear that keeps its pending subtrees in a fixed or growable table meets) */
+    const int desc = (int)(di & 1), comb = (int)((di >> 2) & 1), dup = comb ? 0 : (int)((di >> 1) & 1);
     int n, i, nz, base = 400;
     vrt_rng_seed(&g, vrt_seed, 0xDEE9000 + di);
-    n = 4200 + (int)vrt_below(&g, 1800);
+    n = comb ? 1100 + (int)vrt_below(&g, 600) : 4200 + (int)vrt_below(&g, 1800);
     cmp_scale = 1;
-    vrt_case_note("deep bintree %s%s spine=%d", desc ? "descending" : "ascending", dup ? " with-equal-keys" : "", n);
-    st_create_ex(0, 1, base + 4 * n + 400, n + 80, 0);
+    vrt_case_note("deep bintree %s%s%s spine=%d", desc ? "descending" : "ascending", dup ? " with-equal-keys" : "", comb ? " comb" : "", n);
+    st_create_ex(0, 1, base + 4 * n + 400, (comb ? 2 * n : n) + 80, 0);
     /* equal keys always go right: runs of equal keys keep an ascending spine a spine; on the descending (left)
      * spine duplicates of deep spine keys are added afterwards instead */
 #define DKEY(i) (base + 4 * ((dup && !desc) ? (i) / 4 * 4 : (i)))
@@ -1251,11 +1258,18 @@ static void run_deep(uint64_t di)
         const int k = desc ? DKEY(n - 1 - i) : DKEY(i);
         if (!st_apply(OP(K_INSERT, 0, i & 1, k), 0)) vrt_fail("harness.deep.insert", "insert not applicable");
     }
-    /* zig-zags: at ~14 nodes below depth 4100 and at the deep end */
     nz = 0;
+    if (comb) {
+        for (i = 0; i < n; i++) {
+            const int k = desc ? DKEY(n - 1 - i) + 1 : DKEY(i) - 1;
+            if (!st_apply(OP(K_INSERT, 0, i & 1, k), 0)) vrt_fail("harness.deep.insert", "comb insert not applicable");
+        }
+        VRT_COUNT("deep.comb-trees");
+    }
+    /* zig-zags: at ~14 nodes below depth 4100 and at the deep end */
     if (dup && desc)
         for (i = 0; i < 24; i++) nz += st_apply(OP(K_INSERT, 0, i & 1, DKEY(n - 1 - (4100 + (int)vrt_below(&g, n - 4100)))), 0);
-    for (i = 0; i < 14; i++) {
+    for (i = 0; i < (comb ? 0 : 14); i++) {
         const int at = 4100 + (int)vrt_below(&g, n - 4100);      /* spine position (= depth) */
         const int k = desc ? DKEY(n - 1 - at) : DKEY(at);
         if (desc) {
@@ -1380,7 +1394,7 @@ static uint64_t ncases(void)
 static int ndeep(void)
 {
     if (mc_mode || mode == MODE_RB) return 0;
-    if (mode == MODE_CLEAR) return vrt_thorough ? 16 : 4;
+    if (mode == MODE_CLEAR) return vrt_thorough ? 16 : 6;
     return vrt_thorough ? 8 : 2;
 }
 static void run_case(uint64_t idx)
